@@ -606,6 +606,7 @@ impl<const M: usize> Sim<M> {
         let what = if use_iter { "alloc_slice_try_fill_iter" } else { "alloc_slice_try_fill_with" };
         let next = Cell::new(0usize);
         let ordered = Cell::new(true);
+        let later_fail = op.a & 0x40 != 0;
         let res = self.call(|b| {
             let mut f = |i: usize| -> Result<T, E> {
                 let _u = enter_user();
@@ -615,6 +616,9 @@ impl<const M: usize> Sim<M> {
                 next.set(i + 1);
                 if i == fail_at {
                     Err(E::new(eid))
+                } else if i > fail_at && later_fail {
+                    // asked again after it already failed: it fails again, with a different error value
+                    Err(E::new(tok_new()))
                 } else {
                     Ok(T::from_pat(id, i))
                 }
@@ -672,6 +676,9 @@ impl<const M: usize> Sim<M> {
             }
             if next.get() != fail_at + 1 || !ordered.get() {
                 self.v("C02", format!("{what}(len {len}, failing at {fail_at}): initialiser driven {} times, in order: {}", next.get(), ordered.get()));
+            }
+            if next.get() > fail_at + 1 {
+                self.v("C11", format!("{what}(len {len}, failing at {fail_at}): the initialiser was consulted {} more time(s) after it had reported its error", next.get() - fail_at - 1));
             }
             if let Some(e) = delivered {
                 if e.id() != eid {
